@@ -34,7 +34,9 @@ MANIFEST = {
 FRAME = Fraction(1001, 30000) * 1000000  # microseconds
 BASES = [(0, 0, 1, 0), (0, 0, 59, 29), (0, 59, 59, 29), (1, 0, 0, 0), (23, 59, 50, 15), (0, 0, 0, 0)]
 FILLERS = [0, 1, 5, 12]
-BOUNDARY = ["none", "inline"] + [f"own{g}" for g in range(1, 9)]
+# "split": doubled streams only - the line ends between the two copies of End-Of-Caption (the second copy opens the next
+# line, one frame later; a decoder still counts the pair once)
+BOUNDARY = ["none", "inline"] + [f"own{g}" for g in range(1, 9)] + ["split"]
 FINAL = ["cleared", "never", "flash1", "flash2", "flash3"]
 
 
@@ -69,6 +71,10 @@ def build(base, sep, doubled, fillers, b1, b2, final, tworows=False):
             cur += 90 + len(load)
         elif b == "inline":
             lines.append((cur, load + [C.EDM] * d + [C.EOC] * d))
+            cur += 90 + len(load)
+        elif b == "split":
+            lines.append((cur, load + [C.EOC]))
+            lines.append((cur + len(load) + 1, [C.EOC]))
             cur += 90 + len(load)
         else:
             g = int(b[3:])
@@ -277,6 +283,8 @@ def run_shard(d):
             fset = FINAL if not d.get("mixed") else ["cleared", "never"]
             for b1 in bset:
                 for b2 in bset:
+                    if "split" in (b1, b2) and not d["doubled"]:
+                        continue
                     for final in fset:
                       for tworows, spacing in (((False, 0), (True, 0)) + (((False, 1), (False, 2), (False, 3)) if fillers == fill_sets[1] and offset == offsets_for(base)[0] else ()) if fillers in fill_sets[:2] else ((False, 0),)):
                         case = (base, d["sep"], d["doubled"], fillers, b1, b2, final, offset, tworows, spacing)
